@@ -39,6 +39,7 @@ inductive Guard
   | otherEqZero            -- other == 0
   | selfIsLinear           -- self.is_linear
   | otherIsReal            -- isinstance(other, Real)
+  | otherDomainFieldIsRange -- other.domain.field == self.range
   | and (g h : Guard)      -- g and h
   deriving DecidableEq, Repr
 
@@ -92,6 +93,24 @@ inductive Flag
   | bothWithConstant   -- FunctionalSum.__init__(left=func, right=ConstantFunctional(constant=scalar))
   deriving DecidableEq, Repr
 
+/-- The scalar-merging shortcut of `Operator{Left,Right}ScalarMult.__init__` (the ONLY
+rebinding of `scalar` / `operator` the translator accepts in those constructors). -/
+inductive Merge
+  | none               -- no rebinding
+  | ownClassProduct    -- if isinstance(operator, OwnClass): scalar = scalar * operator.scalar; operator = operator.operator
+  deriving DecidableEq, Repr
+
+/-- Out-of-place `_call` bodies: `return <CExpr>`. `first` is `self.left` / `self.operator` /
+`self.functional` / `self.dividend`, `second` is `self.right` / `self.divisor`. -/
+inductive CExpr
+  | x | scalar | vector | constant
+  | first (arg : CExpr)
+  | second (arg : CExpr)
+  | add (a b : CExpr)
+  | mul (a b : CExpr)
+  | div (a b : CExpr)
+  deriving Repr
+
 /-- Everything the translator extracts. -/
 structure Tables where
   operatorAdd : Act
@@ -106,8 +125,6 @@ structure Tables where
   operatorRSub : Deleg
   operatorNeg : Deleg
   operatorTruediv : Deleg
-  operatorMatmul : Deleg
-  operatorRMatmul : Deleg
   functionalSub : Deleg
   /-- `Functional.__radd__ = __add__` -/
   functionalRAddIsAdd : Bool
@@ -115,10 +132,11 @@ structure Tables where
   powIsCompLoop : Bool
   /-- `Operator.__array_priority__ > LinearSpaceElement.__array_priority__` -/
   operatorPriorityHigher : Bool
-  /-- the scalar-merging shortcut of `Operator{Left,Right}ScalarMult.__init__` is
-  `scalar = scalar * operator.scalar; operator = operator.operator` -/
-  scalarMergeIsProduct : Bool
+  mergeLeft : Merge         -- OperatorLeftScalarMult.__init__
+  mergeRight : Merge        -- OperatorRightScalarMult.__init__
   flagOf : Cls → Flag
+  /-- out-of-place `_call` of each expression class (inherited ones resolved by MRO) -/
+  callOf : Cls → CExpr
 
 section
 variable {K : Type} [Add K] [Mul K] [Neg K] [Sub K] [Div K] [OfNat K 0] [OfNat K 1]
@@ -143,6 +161,9 @@ def Guard.eval (self : Impl K) (other : Operand K) : Guard → Bool
   | .otherEqZero => match other with | .scal s _ => decide (s = 0) | _ => false
   | .selfIsLinear => self.lin
   | .otherIsReal => match other with | .scal _ re => re | _ => false
+  -- one field per tree: the field of `other.domain` is THE field; `self.range` equals it iff
+  -- it is the field
+  | .otherDomainFieldIsRange => match other with | .op _ => decide (self.ran = .fld) | _ => false
   | .and g h => g.eval self other && h.eval self other
 
 def ctorSum (fn : Bool) (a b : Impl K) : Option (Impl K) :=
@@ -151,9 +172,20 @@ def ctorSum (fn : Bool) (a b : Impl K) : Option (Impl K) :=
 def ctorComp (fn : Bool) (l r : Impl K) : Option (Impl K) :=
   if r.ran = l.dom then some (.comp fn l r) else none
 
+/-- `OperatorLeftScalarMult.__init__` under an extracted merge rule -/
+def ctorLScal (m : Merge) (fn : Bool) (a : Impl K) (s : K) : Impl K :=
+  match m with
+  | .ownClassProduct => mkLScal fn a s
+  | .none => .lscal fn a s
+
+def ctorRScal (m : Merge) (fn : Bool) (a : Impl K) (s : K) : Impl K :=
+  match m with
+  | .ownClassProduct => mkRScal fn a s
+  | .none => .rscal fn a s
+
 /-- `C(args)` with the argument checks of `C.__init__` (`none` = it raises). Combinations the
-overloads never produce are `none`. -/
-def construct (env : Nat → Vec K → Vec K) (c : Cls) (args : Args) (self : Impl K)
+overloads never produce are `none`. `mL`, `mR`: the extracted scalar-merging rules. -/
+def construct (mL mR : Merge) (env : Nat → Vec K → Vec K) (c : Cls) (args : Args) (self : Impl K)
     (other : Operand K) : Option (Impl K) :=
   match c, args, other with
   | .OperatorSum, .selfOther, .op b => ctorSum false self b
@@ -169,16 +201,16 @@ def construct (env : Nat → Vec K → Vec K) (c : Cls) (args : Args) (self : Im
   | .OperatorComp, .selfOther, .op b => ctorComp false self b
   | .OperatorComp, .otherSelf, .op b => ctorComp false b self
   | .FunctionalComp, .selfOther, .op b => if self.isFn then ctorComp true self b else none
-  | .OperatorLeftScalarMult, .selfOther, .scal s _ => some (mkLScal false self s)
+  | .OperatorLeftScalarMult, .selfOther, .scal s _ => some (ctorLScal mL false self s)
   | .FunctionalLeftScalarMult, .selfOther, .scal s _ =>
-      if self.isFn then some (mkLScal true self s) else none
-  | .OperatorRightScalarMult, .selfOther, .scal s _ => some (mkRScal false self s)
+      if self.isFn then some (ctorLScal mL true self s) else none
+  | .OperatorRightScalarMult, .selfOther, .scal s _ => some (ctorRScal mR false self s)
   | .OperatorRightScalarMult, .opScalTimesOther, .scal s _ =>
       match rscalParts self with
-      | some (a', t) => some (mkRScal false a' (t * s))
+      | some (a', t) => some (ctorRScal mR false a' (t * s))
       | none => none
   | .FunctionalRightScalarMult, .selfOther, .scal s _ =>
-      if self.isFn then some (mkRScal true self s) else none
+      if self.isFn then some (ctorRScal mR true self s) else none
   | .OperatorRightVectorMult, .selfOtherCopy, .vec v =>
       if self.dom = .vec v.n then some (.rvec false self v.val) else none
   | .FunctionalRightVectorMult, .selfOther, .vec v =>
@@ -193,38 +225,38 @@ def construct (env : Nat → Vec K → Vec K) (c : Cls) (args : Args) (self : Im
   | _, _, _ => none
 
 /-- Run an overload body. `rmul` is what `other * self` does, `sup` the next class in the MRO. -/
-def Act.eval (env : Nat → Vec K → Vec K) (rmul : Operand K → Option (Impl K))
+def Act.eval (mL mR : Merge) (env : Nat → Vec K → Vec K) (rmul : Operand K → Option (Impl K))
     (sup : Operand K → Option (Impl K)) (self : Impl K) (other : Operand K) :
     Act → Option (Impl K)
   | .notImplemented => none
   | .super => sup other
   | .otherTimesSelf => rmul other
-  | .mk c a => construct env c a self other
+  | .mk c a => construct mL mR env c a self other
   | .ite g t e =>
-      if g.eval self other then t.eval env rmul sup self other
-      else e.eval env rmul sup self other
+      if g.eval self other then t.eval mL mR env rmul sup self other
+      else e.eval mL mR env rmul sup self other
 
 def noSuper : Operand K → Option (Impl K) := fun _ => none
 
 /-- `other * self` / `self.__rmul__(other)` -/
 def dispatchRMul (T : Tables) (env : Nat → Vec K → Vec K) (self : Impl K) (other : Operand K) :
     Option (Impl K) :=
-  let base := fun o => T.operatorRMul.eval env noSuper noSuper self o
-  if self.isFn then T.functionalRMul.eval env noSuper base self other else base other
+  let base := fun o => T.operatorRMul.eval T.mergeLeft T.mergeRight env noSuper noSuper self o
+  if self.isFn then T.functionalRMul.eval T.mergeLeft T.mergeRight env noSuper base self other else base other
 
 /-- `self * other` / `self.__mul__(other)` -/
 def dispatchMul (T : Tables) (env : Nat → Vec K → Vec K) (self : Impl K) (other : Operand K) :
     Option (Impl K) :=
   let rm := fun o => dispatchRMul T env self o
-  let base := fun o => T.operatorMul.eval env rm noSuper self o
-  let rs := fun o => if (rscalParts self).isSome then T.rscalMul.eval env rm base self o else base o
-  if self.isFn then T.functionalMul.eval env rm rs self other else rs other
+  let base := fun o => T.operatorMul.eval T.mergeLeft T.mergeRight env rm noSuper self o
+  let rs := fun o => if (rscalParts self).isSome then T.rscalMul.eval T.mergeLeft T.mergeRight env rm base self o else base o
+  if self.isFn then T.functionalMul.eval T.mergeLeft T.mergeRight env rm rs self other else rs other
 
 /-- `self.__add__(other)` -/
 def dispatchAdd (T : Tables) (env : Nat → Vec K → Vec K) (self : Impl K) (other : Operand K) :
     Option (Impl K) :=
-  let base := fun o => T.operatorAdd.eval env noSuper noSuper self o
-  if self.isFn then T.functionalAdd.eval env noSuper base self other else base other
+  let base := fun o => T.operatorAdd.eval T.mergeLeft T.mergeRight env noSuper noSuper self o
+  if self.isFn then T.functionalAdd.eval T.mergeLeft T.mergeRight env noSuper base self other else base other
 
 /-- The expression `self + other` as Python evaluates it (reflected-first rule). -/
 def pyAdd (T : Tables) (env : Nat → Vec K → Vec K) (self : Impl K) (other : Operand K) :
@@ -364,6 +396,60 @@ def Impl.linBy (flagOf : Cls → Flag) : Impl K → Bool
   | .flvec a _ => (flagOf .FunctionalLeftVectorMult).apply (a.linBy flagOf) false false
   | .const _ c => (flagOf .ConstantFunctional).apply false false (decide (c 0 = 0))
   | .zero _ => (flagOf .ZeroFunctional).apply false false true
+
+/-! ### the out-of-place `_call` table -/
+
+/-- Value of a `_call` return expression at `x`, given the maps of the sub-operators and the
+stored scalar (as a constant family) / vector / constant. -/
+def CExpr.eval (first second : Vec K → Vec K) (scalar vector constant : Vec K) (x : Vec K) :
+    CExpr → Vec K
+  | .x => x
+  | .scalar => scalar
+  | .vector => vector
+  | .constant => constant
+  | .first a => first (a.eval first second scalar vector constant x)
+  | .second a => second (a.eval first second scalar vector constant x)
+  | .add a b => fun j => a.eval first second scalar vector constant x j +
+      b.eval first second scalar vector constant x j
+  | .mul a b => fun j => a.eval first second scalar vector constant x j *
+      b.eval first second scalar vector constant x j
+  | .div a b => fun j => a.eval first second scalar vector constant x j /
+      b.eval first second scalar vector constant x j
+
+def idV : Vec K → Vec K := fun x => x
+def zeroV : Vec K := fun _ => 0
+
+/-- `op(x)` computed through an extracted `_call` table. -/
+def runBy (callOf : Cls → CExpr) (env : Nat → Vec K → Vec K) : Impl K → Vec K → Vec K
+  | .leaf i => fun x => env i.id x
+  | .sum fn l r => fun x => (callOf (if fn then .FunctionalSum else .OperatorSum)).eval
+      (runBy callOf env l) (runBy callOf env r) zeroV zeroV zeroV x
+  | .scalSum f c => fun x => (callOf .FunctionalScalarSum).eval
+      (runBy callOf env f)
+      (fun y => (callOf .ConstantFunctional).eval idV idV zeroV zeroV (fun _ => c) y)
+      zeroV zeroV zeroV x
+  | .vecSum a v => fun x => (callOf .OperatorVectorSum).eval (runBy callOf env a) idV zeroV v zeroV x
+  | .comp fn l r => fun x => (callOf (if fn then .FunctionalComp else .OperatorComp)).eval
+      (runBy callOf env l) (runBy callOf env r) zeroV zeroV zeroV x
+  | .pprod fn l r => fun x =>
+      (callOf (if fn then .FunctionalProduct else .OperatorPointwiseProduct)).eval
+      (runBy callOf env l) (runBy callOf env r) zeroV zeroV zeroV x
+  | .quot l r => fun x => (callOf .FunctionalQuotient).eval
+      (runBy callOf env l) (runBy callOf env r) zeroV zeroV zeroV x
+  | .lscal fn a s => fun x =>
+      (callOf (if fn then .FunctionalLeftScalarMult else .OperatorLeftScalarMult)).eval
+      (runBy callOf env a) idV (fun _ => s) zeroV zeroV x
+  | .rscal fn a s => fun x =>
+      (callOf (if fn then .FunctionalRightScalarMult else .OperatorRightScalarMult)).eval
+      (runBy callOf env a) idV (fun _ => s) zeroV zeroV x
+  | .lvec a v => fun x => (callOf .OperatorLeftVectorMult).eval (runBy callOf env a) idV zeroV v zeroV x
+  | .rvec fn a v => fun x =>
+      (callOf (if fn then .FunctionalRightVectorMult else .OperatorRightVectorMult)).eval
+      (runBy callOf env a) idV zeroV v zeroV x
+  | .flvec a v => fun x => (callOf .FunctionalLeftVectorMult).eval
+      (runBy callOf env a) idV zeroV v.val zeroV x
+  | .const _ c => fun x => (callOf .ConstantFunctional).eval idV idV zeroV zeroV c x
+  | .zero _ => fun x => (callOf .ZeroFunctional).eval idV idV zeroV zeroV zeroV x
 
 end
 
